@@ -1,9 +1,10 @@
 """C07 — every function the compiler emits is well-formed bytecode (structural clauses: jump provenance, index-carrying fields across
 every table walker, dispatch-table agreement, remap order/completeness). Shared with C10 (R-C10-1/2)."""
 import json
+import os
 
 from qvlib import hir
-from qvlib.extract import CheckError
+from qvlib.extract import VERIF, CheckError
 from qvlib.facts import op_local, op_place
 from qvlib.paths import Flow, agg_sites, call_matches, explore
 
@@ -492,6 +493,67 @@ def r2_index_fields(ctx, rule_id="R-C07-2"):
         ctx.check(ok, R, "merge_bytecode|BuiltinInfo.%s" % fname, "rewritten through the type table", "merge_bytecode no longer remaps BuiltinInfo.%s" % fname)
 
 
+def r7_emitted_stack_discipline(ctx, rule_id="R-C07-7"):
+    R = rule_id
+    ctx.rule(R, "operand-stack discipline of the emitted code, decided on the GENERATOR: every code-emitting function of the compiler is interpreted "
+                "abstractly over the height of the stack its emitted code will have (qvlib/emit.py; stack effect per instruction from the executor's "
+                "handlers). Wherever emitted control flow joins — patch_jump_to_here, emit_jump*_to_addr, patch_jump_to_addr, jumps to an external "
+                "label parameter — all arriving heights must be equal on every generator path; functions whose net effect is determinate keep their "
+                "reviewed contract (net height change, height of jumps to their label parameters). Data-dependent effects (Tuple(n), calls into the "
+                "recursive compile_* family) end the decided part of a path: no verdict there")
+    from qvlib import emit
+    F = ctx.facts
+    # exhaustiveness of the stack-effect table against the Instruction enum
+    variants = F.variants(INSTR)
+    known = set(emit.FIXED) | set(emit.DATA_DEPENDENT)
+    ctx.check(set(variants) == known, R, "stack-effect-table", "every Instruction variant has a reviewed stack effect (%d)" % len(variants),
+              "Instruction variants without a reviewed stack effect: %s (stale: %s)" % (sorted(set(variants) - known), sorted(known - set(variants))))
+    results, summaries = emit.analyse_all(F, rounds=3, limit=12000)
+    path = os.path.join(VERIF, "rules", "tables", "c07_emit.json")
+    table = json.load(open(path)) if os.path.exists(path) else {"contracts": {}}
+    if os.environ.get("QV_C07_GEN") == "1":
+        json.dump({"contracts": {k: {"ret": v["ret"], "labels": {str(a): b for a, b in v["labels"].items()}} for k, v in sorted(summaries.items())
+                                 if "::{closure" not in k}},
+                  open(path, "w"), indent=1)
+        ctx.note("%s: contract table regenerated (%d functions)" % (R, len(summaries)))
+        return
+    n_obl = 0
+    decided = 0
+    n_conf = 0
+    for k, a in sorted(results.items()):
+        seen_c = set()
+        for bi, msg in sorted(a.conflicts, key=lambda c: (c[0], len(c[1]), c[1])):
+            key = a.body.loc(bi)
+            if key in seen_c:
+                continue
+            seen_c.add(key)
+            n_conf += 1
+            ctx.violated(R, "%s|join" % k, "the code emitted by this function is not stack-balanced on some path: %s — a consistent height at each join is what "
+                                          "lets the failure/merge code pop and fill the right slots" % msg, a.body.loc(bi))
+        n_obl += len({(b, w, v) for b, w, v in a.obligations})
+        if a.obligations and not a.conflicts:
+            ctx.ok(R, "%s|joins" % k, "%d emitted join(s) with equal heights on every generator path explored (%s)" % (
+                len({(b, w) for b, w, _v in a.obligations}), "complete" if a.complete and not a.unknown_at else "partial: data-dependent beyond"), a.body.loc(0))
+        sm = summaries.get(k)
+        ent = table["contracts"].get(k)
+        if ent is not None:
+            if sm is None:
+                ctx.note("%s: %s no longer has a determinate net stack effect (reviewed: %s) — not decided" % (R, k.split("::")[-1], ent))
+            else:
+                decided += 1
+                labs = {str(p): v for p, v in sm["labels"].items()}
+                ok = sm["ret"] == ent["ret"] and labs == ent["labels"]
+                ctx.check(ok, R, "%s|contract" % k, "net effect %+d, jumps to its label parameters at %s (as reviewed)" % (sm["ret"], labs or "-"),
+                          "the emitted code of %s now changes the stack height by %+d with label jumps at %s (reviewed contract: %+d, %s): its callers "
+                          "(which cannot be analysed: data-dependent) still assume the old effect" % (k.split("::")[-1], sm["ret"], labs, ent["ret"], ent["labels"]),
+                          a.body.loc(0))
+    if not n_conf:
+        ctx.floor(R, "generator functions with a decided contract", decided, 6)
+        ctx.floor(R, "emitted-join equalities discharged", n_obl, 4)
+    ctx.extra["c07_emit"] = {"functions_analysed": len(results), "with_contract": decided, "join_equalities": n_obl,
+                             "undecided": sorted(k.split("::")[-1] for k in results if k not in summaries)[:60]}
+
+
 def r3_dispatch_tables(ctx):
     R = "R-C07-3"
     ctx.rule(R, "dispatch tables agree: is_cold's variant set = the arms of execute_cold; execute_hot's arms = all other variants; "
@@ -794,7 +856,7 @@ def r6_nil_fill(ctx, rule_id="R-C07-6"):
 
 
 def run(ctx):
-    ctx.run_rules([r1_jump_provenance, r2_index_fields, r3_dispatch_tables, r4_id_kinds, r5_remap_order_and_freshness, r6_nil_fill])
+    ctx.run_rules([r1_jump_provenance, r2_index_fields, r3_dispatch_tables, r4_id_kinds, r5_remap_order_and_freshness, r6_nil_fill, r7_emitted_stack_discipline])
     ctx.note("NOT decided: per-path stack height, single argument/result, definite locals of emitted functions — properties of compiler output for all inputs")
     return (
         "Decides structural clauses only: jumps are built by one audited formula from in-range targets; the index-carrying instruction and type "
